@@ -14,7 +14,9 @@ RULE = ("cases = (RAM units cm, uf, ub, wd, rd) groups x 6-10 values of n spread
 
 def _one(cm, c8, n, m):
     from .. import monitor
-    cfg = {"cls": "PeriodicDiskRevolve", "n": n, "s": cm, "c8": c8, "passes": 1}
+    cfg = {"cls": "PeriodicDiskRevolve", "n": n, "s": cm, "c8": list(c8[:4]), "passes": 1}
+    if len(c8) == 5:                      # cost unit other than 1/8 (power of two: exact)
+        cfg["den"] = c8[4]
     r = monitor.execute(cfg, want_trace=True)
     out = {"cfg": cfg, "viol": [], "status": r["status"], "k": 0}
     if r["status"] == "inconclusive":
@@ -63,9 +65,9 @@ def _one(cm, c8, n, m):
 
 def _group(job):
     cm, c8 = job
-    uf, ub, wd, rd = c8
+    uf, ub, wd, rd = c8[:4]
     m = O.period_closed_form(cm, uf, wd, rd)
-    if c8[3] == 0 and c8[0] == 8 and c8[2] % 8 == 0 and c8[2] >= 16 * 8:
+    if len(c8) == 4 and c8[3] == 0 and c8[0] == 8 and c8[2] % 8 == 0 and c8[2] >= 16 * 8:
         ns = sorted({m + 1, m + 2, 2 * m + 2, 3 * m + 1})          # ratio staircase sweep: a few n per cost vector
     else:
         ns = sorted({1, 2, m, m + 1, m + 2, 2 * m, 2 * m + 1, 2 * m + 2, 3 * m + 1, 4 * m + (cm % 3), 6 * m + 3} | {max(1, (m * q) // 4 + 1) for q in (5, 9, 14)})
@@ -133,7 +135,7 @@ def check_witness(data, show=False):
                 res.append((("PeriodicDiskRevolve", pred), w, detail + " [after the earlier schedules of the sequence, in one process]", "item-sequence"))
         return res
     m = O.period_closed_form(w["s"], w["c8"][0], w["c8"][2], w["c8"][3])
-    out = _one(w["s"], w["c8"], w["n"], m)
+    out = _one(w["s"], list(w["c8"]) + ([w["den"]] if "den" in w else []), w["n"], m)
     if show:
         print("replaying %s, closed-form period m=%d" % (C.describe(w), m))
     seen = set()
@@ -165,6 +167,13 @@ def run(prop, args):
     for cm in range(1, (4 if tier == "quick" else 6) + 1):
         for ratio in range(0, 131):
             grid.append((cm, (8, 8, 8 * ratio, 0)))
+    # extreme ratios between the step costs and rescaled units (all dyadic, so every makespan is exact):
+    # the segment reversals must stay at the memory-only optimum whatever the magnitude of ub
+    for cm in (1, 2, 3, 4):
+        for c in ((1, 1 << 30, 2, 2), (1, 1 << 30, 8, 8), (8, 1 << 34, 16, 16), (1 << 30, 1, 1 << 31, 1 << 31), (1 << 30, 1, 0, 0), (1 << 30, 1 << 30, 1, 1),
+                  (8 << 40, 8 << 40, 16 << 40, 16 << 40), (8 << 40, 3 << 40, 40 << 40, 8 << 40),
+                  (8, 8, 16, 16, 8 << 40), (8, 3, 40, 8, 8 << 40), (5, 8, 16, 4, 8 << 40)):
+            grid.append((cm, c))
     grid = [g for g in sorted(set(grid)) if O.period_closed_form(g[0], g[1][0], g[1][2], g[1][3]) <= 100]
     jobs = grid + [g for g in _gen((tier, args.seed, 60 if tier == "quick" else 4000)) if g not in set(grid)]
     res = R.pmap(_group, [(cm, list(c8)) for cm, c8 in jobs], chunksize=1)
@@ -225,7 +234,8 @@ def run(prop, args):
             m = O.period_closed_form(c["s"], c["c8"][0], c["c8"][2], c["c8"][3])
             if m > 100:
                 return None
-            return next((d for p, d in _one(c["s"], c["c8"], c["n"], m)["viol"] if p == b[1]), None)
+            c8 = list(c["c8"]) + ([c["den"]] if "den" in c else [])
+            return next((d for p, d in _one(c["s"], c8, c["n"], m)["viol"] if p == b[1]), None)
         small = C.shrink(w, lambda c: det(c) is not None, budget=150)
         d_ = det(small)
         return (small, d_) if d_ else None      # None: not reproducible in isolation
